@@ -232,7 +232,7 @@ def evaluate_case(ast, doc, model):
 
 PROBES = [
     ('leak to sibling', "[let(x => 1) -> $x, $x]", [1, None]),
-    ('leak to sibling', "[with(7) -> $, $1.len()]", [7, 0]),
+    ('wrong $', "[with(7) -> $, $1.len()]", [7, 0]),
     ('leak to outer', "[[1, 2].select(let(x => $) -> $x).toList(), $x]", [[1, 2], None]),
     ('leak to outer', "def(f, let(x => $) -> $x) -> [f(3), $x]", [3, None]),
     ('leak to outer', "[def(f, 1) -> f(), def(g, 2) -> g()]", [1, 2]),
